@@ -59,7 +59,7 @@ fn has_frames(_c: &Case, o: &Observed) -> bool {
     !o.rep.frames.is_empty()
 }
 
-fn lim(max_samples: usize) -> Limits {
+pub fn lim(max_samples: usize) -> Limits {
     Limits {
         max_samples,
         ..Limits::default()
@@ -67,7 +67,7 @@ fn lim(max_samples: usize) -> Limits {
 }
 
 /// Stereo with a forced anti-correlation mode and forced stereo switches.
-fn side_case(rng: &mut Rng, max_samples: usize) -> Case {
+pub fn side_case(rng: &mut Rng, max_samples: usize) -> Case {
     let bps = *rng.pick(&gen::WIDTHS);
     let block = gen::pick_block_size(rng, (max_samples / 2).max(64));
     let len = gen::pick_len(rng, block, 2).min(max_samples / 2).max(1);
@@ -109,7 +109,7 @@ fn side_case(rng: &mut Rng, max_samples: usize) -> Case {
 }
 
 /// 20/24-bit loud content with LPC order 24 / precision 15 (aims at the 64-bit residual path).
-fn lpc64_case(rng: &mut Rng, max_samples: usize) -> Case {
+pub fn lpc64_case(rng: &mut Rng, max_samples: usize) -> Case {
     let bps = *rng.pick(&[24usize, 24, 20]);
     let channels = *rng.pick(&[1usize, 2]);
     let block = *rng.pick(&[64usize, 128, 256, 1024, 4096]);
@@ -151,7 +151,7 @@ fn lpc64_case(rng: &mut Rng, max_samples: usize) -> Case {
 }
 
 /// Streams whose final block is shorter than 64 / 16 samples; every small residue.
-fn short_tail_case(rng: &mut Rng, idx: u64) -> Case {
+pub fn short_tail_case(rng: &mut Rng, idx: u64) -> Case {
     let mut c = gen_case(rng, &lim(6000));
     let block = *rng.pick(&[32usize, 33, 64, 100, 192, 256, 1000]);
     let full = (idx % 3) as usize;
@@ -166,7 +166,7 @@ fn short_tail_case(rng: &mut Rng, idx: u64) -> Case {
 }
 
 /// Loud/heavy-tailed content with restricted Rice parameters (size guarded by the caller).
-fn loud_case(rng: &mut Rng, max_samples: usize) -> Case {
+pub fn loud_case(rng: &mut Rng, max_samples: usize) -> Case {
     let bps = *rng.pick(&[16usize, 20, 24, 24]);
     let channels = *rng.pick(&[1usize, 2, 2, 3]);
     let block = *rng.pick(&[64usize, 192, 256, 576, 1024, 4096, 4608]);
@@ -225,7 +225,7 @@ fn loud_case(rng: &mut Rng, max_samples: usize) -> Case {
 }
 
 /// Prediction wins AND residuals stay large: loud tone + graded noise, non-stationary.
-fn rice_case(rng: &mut Rng, max_samples: usize) -> Case {
+pub fn rice_case(rng: &mut Rng, max_samples: usize) -> Case {
     let bps = *rng.pick(&[8usize, 12, 16, 20, 24, 24, 20]);
     let channels = *rng.pick(&[1usize, 1, 2]);
     let block = *rng.pick(&[64usize, 128, 192, 256, 512, 1024, 2048, 4096, 4608, 8192, 16384, 1000, 4095, 32767]);
@@ -276,14 +276,14 @@ fn rice_case(rng: &mut Rng, max_samples: usize) -> Case {
     }
 }
 
-fn par_case(rng: &mut Rng, max_samples: usize) -> Case {
+pub fn par_case(rng: &mut Rng, max_samples: usize) -> Case {
     let mut c = gen_case(rng, &Limits { max_samples, max_blocks: 12, max_block_size: 512, ..Limits::default() });
     c.cfg.multithread = true;
     c.cfg.workers = NonZeroUsize::new(*rng.pick(&[1usize, 2, 3, 4, 8, 16]));
     c
 }
 
-fn std_subs(ctx: &Ctx, scale_q: u64, scale_t: u64) -> Vec<Sub> {
+pub fn std_subs(ctx: &Ctx, scale_q: u64, scale_t: u64) -> Vec<Sub> {
     let n = |q: u64, t: u64| ctx.tier.pick(q * scale_q / 100, t * scale_t / 100).max(1);
     let big = ctx.tier.pick(30_000, 120_000);
     vec![
@@ -297,7 +297,7 @@ fn std_subs(ctx: &Ctx, scale_q: u64, scale_t: u64) -> Vec<Sub> {
     ]
 }
 
-fn short_sub(ctx: &Ctx) -> Sub {
+pub fn short_sub(ctx: &Ctx) -> Sub {
     // index-driven: every residue 1..=70 x {0,1,2} full blocks
     let n = ctx.tier.pick(420, 4200);
     Sub {
